@@ -624,11 +624,27 @@ func TestVerifC16(t *testing.T) {
 		if err != nil {
 			t.Fatal(err)
 		}
-		for _, l := range strings.Split(strings.TrimSpace(string(data)), "\n") {
-			if !strings.HasPrefix(l, "#") && strings.TrimSpace(l) != "" {
-				ops = append(ops, l)
+		// a replay file may come from the other harness run (package main): `split` needs the command, skip its cases
+		var group []string
+		flush := func() {
+			for _, l := range group {
+				if strings.HasPrefix(l, "split ") {
+					group = nil
+				}
 			}
+			ops = append(ops, group...)
+			group = nil
 		}
+		for _, l := range strings.Split(strings.TrimSpace(string(data)), "\n") {
+			if strings.HasPrefix(l, "#") || strings.TrimSpace(l) == "" {
+				continue
+			}
+			if strings.HasPrefix(l, "case") {
+				flush()
+			}
+			group = append(group, l)
+		}
+		flush()
 	} else {
 		g := &c16Gen{rng: zz.NewRNG(zz.Seed())}
 		g.generate(zz.Thorough())
